@@ -288,7 +288,13 @@ PoolShape(xsh, pool, st) ==
 \* ------------------------------------------------------------------ structural (gather) operations on one tensor
 \* each yields [ok, sh, g]; `view` says whether NumPy returns a view of the operand
 StructF == {"getitem", "reshape", "transpose", "T", "swapaxes", "moveaxis", "squeeze", "expand_dims",
-            "ravel", "flatten", "broadcast_to", "repeat", "roll", "diag"}
+            "ravel", "flatten", "broadcast_to", "repeat", "roll", "diag", "atleast"}
+\* numpy.atleast_1d / _2d / _3d (s.nd = 1, 2, 3)
+AtLeastShape(sh, nd) ==
+  IF Len(sh) >= nd THEN sh
+  ELSE IF nd = 1 THEN <<1>>
+  ELSE IF nd = 2 THEN (IF Len(sh) = 0 THEN <<1, 1>> ELSE <<1, sh[1]>>)
+  ELSE IF Len(sh) = 0 THEN <<1, 1, 1>> ELSE IF Len(sh) = 1 THEN <<1, sh[1], 1>> ELSE <<sh[1], sh[2], 1>>
 StructShape(f, s, sh) ==
   CASE f = "getitem"     -> IndexShape(s.ix, sh)
     [] f = "reshape"     -> ResolveShape(s.sh, Size(sh))
@@ -304,6 +310,7 @@ StructShape(f, s, sh) ==
     [] f = "repeat"      -> RepeatShape(sh, s.r, NormAxis(s.axis, Len(sh)))
     [] f = "roll"        -> sh
     [] f = "diag"        -> <<sh[1]>>
+    [] f = "atleast"     -> AtLeastShape(sh, s.nd)
 StructGather(f, s, sh) ==
   CASE f = "getitem"     -> IndexGather(s.ix, sh)
     [] f = "transpose"   -> PermGather(sh, IF Has(s, "axes") THEN NormAxes(s.axes, Len(sh)) ELSE ReversePerm(Len(sh)))
@@ -319,7 +326,7 @@ Consecutive(imap) == \A k \in 1..Len(imap) : imap[k] = imap[1] + (k - 1)
 \* NumPy returns a view of the operand (and MyGrad therefore registers a view tensor)
 StructIsView(f, s, src, newimap, newsh) ==
   CASE f = "getitem"  -> s.ix.t = "basic" /\ ~AllInts(s.ix.items, src.sh)
-    [] f \in {"transpose", "T", "swapaxes", "moveaxis", "squeeze", "expand_dims", "broadcast_to", "diag"} -> TRUE
+    [] f \in {"transpose", "T", "swapaxes", "moveaxis", "squeeze", "expand_dims", "broadcast_to", "diag", "atleast"} -> TRUE
     [] f = "reshape"  -> Affine(newimap, newsh)
     [] f = "ravel"    -> Len(newimap) <= 1 \/ Consecutive(newimap)
     [] OTHER          -> FALSE
@@ -416,7 +423,7 @@ ApplyOp(st, s) ==
             \* KNOWN FINDING F-C04-1 (trigger): NumPy hands back the operand array itself (a squeeze with
             \* nothing to squeeze, on a memory owner).  MyGrad then records a NON-view tensor over the same
             \* array (no .base, no view bookkeeping), so later in-place updates do not propagate.
-            passthru == f = "squeeze" /\ sh = src.sh /\ src.base = 0
+            passthru == f \in {"squeeze", "atleast"} /\ sh = src.sh /\ src.base = 0
             \* KNOWN FINDING F-C02-1 (trigger): repeat of a tensor with a zero-length axis cannot be back-propagated
             emptyrep == f = "repeat" /\ Size(src.sh) = 0
             \* KNOWN FINDING F-C02-2 (trigger): the diagonal einsum of an empty matrix cannot be back-propagated either
@@ -424,7 +431,7 @@ ApplyOp(st, s) ==
             \* (same root cause, gradient side: replaying a no-op squeeze on a gradient ARRAY hands back the array itself; when the
             \*  parent is a detached owner the view's cached gradient then passes the staleness test - None is None - after the
             \*  parent's gradient was dropped)
-            noopsq == f = "squeeze" /\ sh = src.sh
+            noopsq == f \in {"squeeze", "atleast"} /\ sh = src.sh
             st0 == [st EXCEPT !.kf = @ \cup (IF passthru \/ noopsq THEN {"F-C04-1"} ELSE {}) \cup (IF emptyrep THEN {"F-C02-1"} ELSE {})
                                        \cup (IF emptydiag THEN {"F-C02-2"} ELSE {})]
         IN IF StructIsView(f, s, src, newimap, sh)
